@@ -23,6 +23,10 @@ CHECKS = {
    text='Paths are constructed from their parts (exhaustive product over representative ids at depth 0..2 (3 in thorough), Hypothesis over all real loop ids to depth 6, near-miss pairs for equality) and parsed: fields must equal the parts, format() the text, re-parse equal and hash-equal, ill-formed combinations must raise X12PathError; the printed path of every loop/segment/element node of every shipped map must be a fixed point. Segment.set/get_value is driven by generated operation histories against a list-of-lists model with a full snapshot comparison after every step.',
    design_ref='3/C17', technique='grammar-directed enumeration + Hypothesis; model-based operation histories on Segment',
    note='Trusted: the path grammar as worded in the property; build()/expect_error() in vpx/props/c17.py. Composite map nodes (path = segment path + "/") and loop ids that look like segment ids are outside the grammar and skipped (counted).'),
+ 'C20': dict(
+   text='x12norm.main() is run in-process on generated files given by path under every combination of -e, -f and {stdout, -o, -i}; output is tokenised by the reference tokeniser and compared with the input segments (content), with the exact expected text layout, with a second pass (byte-for-byte idempotence) and, under -f, with the independently computed repair (true IEA01/GE01/SE01/HL01, nothing else altered) plus an envelope audit and a pyx12 re-read. Quick 2400 files, thorough 9600.',
+   design_ref='3/C20', technique='Hypothesis structured generation; round-trip/idempotence metamorphic relations and a reference repair model',
+   note='Trusted: vpx/x12ref.py, vpx/envmodel.py, _repair() in vpx/props/c20.py. Inputs are readable interchanges whose only defects are the count fields; in-process call of main() (argv/stdout patched), not a subprocess.'),
 }
 for pid in CHECKS:
     ENGINES[0]['serves_properties'].append(pid)
